@@ -83,7 +83,7 @@ def rtype(r):
 
 
 class State:
-    __slots__ = ("obj", "limb", "written", "env", "alloc", "off")
+    __slots__ = ("obj", "limb", "written", "env", "alloc", "off", "flags")
 
     def __init__(self, obj=None, limb=None, written=None, env=None, alloc=None, off=None):
         self.obj = dict(obj or {})          # var id -> frozenset(regions)
@@ -92,9 +92,11 @@ class State:
         self.env = dict(env or {})          # integer var id -> Term (absent = the variable's own entry symbol)
         self.alloc = dict(alloc or {})      # region -> (Term lower bound of its allocation in limbs, line)
         self.off = dict(off or {})          # limb pointer var id -> Term offset from the base of its (single) region
+        self.flags = {}                     # boolean local -> parameter pairs that differ when the flag is false
 
     def copy(self):
         s = State(self.obj, self.limb, {k: dict(v) for k, v in self.written.items()}, self.env, self.alloc, self.off)
+        s.flags = dict(self.flags)
         return s
 
     def join(self, o, where=0):
@@ -115,6 +117,10 @@ class State:
             if o.off.get(k, "absent") != self.off[k]:
                 del self.off[k]
                 ch = True
+        for k in list(self.flags):
+            if o.flags.get(k) != self.flags[k]:
+                del self.flags[k]
+                ch = True
         for k, v in o.obj.items():
             n = self.obj.get(k, frozenset()) | v
             if n != self.obj.get(k):
@@ -134,6 +140,19 @@ class State:
         return ch
 
 
+class _Dedup(collections.Counter):
+    """counter whose increments are de-duplicated by the analysis on (name, site) so that fixpoint revisits do not inflate it"""
+    site = None
+    _seen = None
+
+    def bump(self, name, key):
+        if self._seen is None:
+            self._seen = set()
+        if (name, key) not in self._seen:
+            self._seen.add((name, key))
+            self[name] += 1
+
+
 class Analysis:
     def __init__(self, fn, prop, report, stats, must_differ=()):
         self.fn, self.prop, self.report, self.stats = fn, prop, report, stats
@@ -147,9 +166,14 @@ class Analysis:
             if k and k[2]:
                 self.pinfo[p["id"]] = (i, k[0], k[1])
         self.seen_reports = set()
+        self.shared_stats = stats
+        self.stats = _Dedup()
+        self.fine = True
+        self.reset_reports = lambda: None
         self.tmp_backed = set()
         self.exceptions = set()
         self.static_noalias = set()      # frozenset((i, j)) parameter pairs that no call site of a static function aliases
+        self.overlap = {}                # callee -> [(i, j, kind, text)]
 
     # ---- regions -----------------------------------------------------------------------------
     def preg(self, i, sub=""):
@@ -383,18 +407,18 @@ class Analysis:
         (r, fresh, l0, bs) = next(iter(v[1]))
         if r not in st.alloc or not fresh:
             return
-        self.stats["extent_obligations"] += 1
+        self.stats.bump("extent_obligations", line)
         E, eline = st.alloc[r]
         end = tadd(self.offset(ptr_expr, st), extra)
         d = tconst(tadd(end, E, -1)) if end is not None else None
         if d is None:
-            self.stats["extent_undecided"] += 1
+            self.stats.bump("extent_undecided", line)
         elif d <= 0:
-            self.stats["extent_proved"] += 1
+            self.stats.bump("extent_proved", line)
         elif ("R-EXTENT", self.fn["name"], self.rname(r)) in self.exceptions:
             self.stats["reviewed_exceptions"] += 1
         else:
-            self.stats["extent_refuted"] += 1
+            self.stats.bump("extent_refuted", line)
             self.rep("R-EXTENT", line, "overrun:%s" % self.rname(r),
                      "%s at line %d writes %d limb%s past the %s requested for %s at line %d (the allocation is only known to hold what "
                      "MPZ_REALLOC / the size test asked for)" % (what, line, d, "" if d == 1 else "s", "size", self.rname(r), eline))
@@ -424,7 +448,7 @@ class Analysis:
     def use_limb(self, val, st, line, name, how):
         if not val or val[0] != "limb":
             return
-        self.stats["limb_pointer_uses"] += 1
+        self.stats.bump("limb_pointer_uses", (line, name))
         for (r, fresh, l0, bs) in val[1]:
             if not fresh:
                 if ("R-STALE", self.fn["name"], name) in self.exceptions:
@@ -448,13 +472,13 @@ class Analysis:
         for r in regions:
             if r[0] == "P":
                 st.written.setdefault(r, {}).setdefault(comp, line)
-                self.stats["output_writes"] += 1
+                self.stats.bump("output_writes", (line, r, comp))
 
     def read(self, regions, comp, st, ne, line, how):
         for r in regions:
             if r[0] != "P" or not self.is_input(r):
                 continue
-            self.stats["input_reads"] += 1
+            self.stats.bump("input_reads", (line, r, comp))
             for w, comps in st.written.items():
                 if w == r or not self.may_alias(w, r, ne):
                     continue
@@ -486,7 +510,7 @@ class Analysis:
         if c in REALLOC_FNS:
             if vals and vals[0] and vals[0][0] == "obj":
                 self.invalidate(vals[0][1], st, ne, line, c)
-                self.stats["realloc_events"] += 1
+                self.stats.bump("realloc_events", line)
                 n = self.term(args[1], st) if len(args) > 1 and c != "__gmpz_realloc2" else None
                 if n is not None and len(vals[0][1]) == 1:
                     st.alloc[next(iter(vals[0][1]))] = (n, line)
@@ -497,10 +521,41 @@ class Analysis:
                 self.use_limb(vals[0], st, line, self.argname(args[0]), "passed to the %s function" % kind)
                 regs = {r for (r, f, l, b) in vals[0][1] if r[0] in ("P", "L")}
                 self.invalidate(regs, st, ne, line, kind)
-                self.stats["realloc_events"] += 1
+                self.stats.bump("realloc_events", line)
             return
         if kind == "alloc" or c in TMP_ALLOC or (c or "").startswith("__builtin_"):
             return
+        for (i, j, okind, otxt) in self.overlap.get(c, ()):
+            if i < len(vals) and j < len(vals) and vals[i] and vals[j] and vals[i][0] == "limb" and vals[j][0] == "limb":
+                okey = (line, c, i, j)
+                self.stats.bump("overlap_obligations", okey)
+                bad = None
+                for (ri, fi, li, bi) in vals[i][1]:
+                    for (rj, fj, lj, bj) in vals[j][1]:
+                        if ri[0] != "P" or rj[0] != "P":
+                            continue
+                        if ri == rj:
+                            if okind == "no-overlap" and bi and bj:
+                                bad = (ri, rj, "are both the limb block of %s" % self.rname(ri))
+                            continue
+                        if not self.may_alias(ri, rj, ne):
+                            continue
+                        if okind == "no-overlap":
+                            bad = (ri, rj, "%s and %s may be the same variable" % (self.rname(ri), self.rname(rj)))
+                        elif okind == "same-or-separate" and not (bi and bj):
+                            bad = (ri, rj, "%s and %s may be the same variable and the pointers are offset differently" % (self.rname(ri), self.rname(rj)))
+                if bad is None:
+                    self.stats.bump("overlap_proved", okey)
+                elif not self.fine:
+                    # the coarse partition joins paths that bind the pointers differently: a pairing seen here may not exist
+                    self.stats.bump("overlap_undecided", okey)
+                elif ("R-OVERLAP", self.fn["name"], c) in self.exceptions:
+                    self.stats["reviewed_exceptions"] += 1
+                else:
+                    self.rep("R-OVERLAP", line, "overlap:%s:%d,%d" % (c, i, j),
+                             "%s is called at line %d with arguments %d and %d possibly overlapping (%s) and nothing on this path separates "
+                             "them (no pointer comparison, no copy to temporary space); the callee requires %s"
+                             % (c, line, i, j, bad[2], otxt))
         ext = MPN_EXTENTS.get(c)
         if ext:
             for dst, lens in ext:
@@ -532,7 +587,7 @@ class Analysis:
             # an object handed to a callee as destination: overwritten, possibly reallocated
             self.write(regs, "all", st, line)
             self.invalidate(regs, st, ne, line, c)
-            self.stats["realloc_events"] += 1
+            self.stats.bump("realloc_events", line)
 
     def argname(self, a):
         from r_tmp import base_var
@@ -588,6 +643,23 @@ class Analysis:
                 if o is not None and len(rv[1]) == 1:
                     st.off[vid] = o
             elif isint:
+                st.flags.pop(vid, None)
+                if rhs is not None:
+                    # copy_u = (zeros > 0 || rp == up): when the flag is false every disjunct is false
+                    pairs = frozenset()
+                    djs, todo = [], [sa.strip_expect(rhs)]
+                    while todo:
+                        x = todo.pop()
+                        while isinstance(x, dict) and x.get("k") == "cast":
+                            x = x["e"]
+                        if isinstance(x, dict) and x.get("k") == "binop" and x["op"] == "||":
+                            todo += [sa.strip_expect(x["l"]), sa.strip_expect(x["r"])]
+                        elif isinstance(x, dict):
+                            djs.append(x)
+                    for dj in djs:
+                        pairs = self.refine(dj, False, st, pairs)
+                    if pairs:
+                        st.flags[vid] = pairs
                 t = self.term(rhs, st) if rhs is not None else None
                 # the variable's old value may appear in other terms: those keep their meaning because terms name
                 # values (symbols), not variables
@@ -610,8 +682,8 @@ class Analysis:
                     # keep it in free_me while it is still a source), so nothing goes stale here
                     if rv and rv[0] == "limb" and any(x[0][0] == "T" for x in rv[1]):
                         self.tmp_backed |= set(base[1])
-                    if rhs is not None and rhs.get("k") == "var" and rv and rv[0] == "limb":
-                        st.limb[rhs["id"]] = frozenset((r, True, 0, True) for r in base[1]) | rv[1]
+                    # the stored variable keeps naming the new block only: pointers fetched earlier from an object that may be
+                    # the same variable still point to the OLD block, which stays allocated (free_me)
             return
         if k == "unop" and lhs["op"] == "*" or k == "index":
             p = lhs["e"] if k == "unop" else lhs["base"]
@@ -689,6 +761,8 @@ class Analysis:
         while isinstance(c, dict) and c.get("k") == "unop" and c["op"] == "!":
             c = sa.strip_expect(c["e"])
             neg = not neg
+        if isinstance(c, dict) and c.get("k") == "var" and c["id"] in st.flags and (truth != neg) is False:
+            return ne | st.flags[c["id"]]
         if isinstance(c, dict) and c.get("k") == "binop" and c["op"] in ("<", ">", "<=", ">="):
             # ALLOC(z) < n  /  n > ALLOC(z): on the edge where the allocation suffices it is known to be >= n
             t = truth != neg
@@ -727,8 +801,14 @@ class Analysis:
         return ne
 
     def objkey(self, st):
-        """which region each object-pointer PARAMETER variable denotes (they get redirected to copies: divisor = temp)"""
-        return frozenset((vid, v) for vid, v in st.obj.items() if vid in self.pinfo)
+        """which region each object-pointer PARAMETER variable denotes (they get redirected to copies: divisor = temp) and,
+        at the finer level, which blocks each limb-pointer variable may name (mpz_mul's `up` is u's block on one path
+        and a TMP copy on another: joining them would pair the wrong pointers)"""
+        k = frozenset((vid, v) for vid, v in st.obj.items() if vid in self.pinfo)
+        if self.fine:
+            k = (k, frozenset((vid, frozenset(r for (r, f, l, b) in vals)) for vid, vals in st.limb.items()
+                              if any(r[0] == "P" for (r, f, l, b) in vals) or any(r[0] in ("T", "H") for (r, f, l, b) in vals)))
+        return k
 
     def is_base_ptr(self, e, st):
         """e is a variable (or PTR(x)) with no arithmetic applied"""
@@ -742,6 +822,24 @@ class Analysis:
 
     # ---- fixpoint -------------------------------------------------------------------------------
     def run(self):
+        for fine in (True, False):
+            self.fine = fine
+            self.stats = _Dedup()
+            try:
+                r = self.run_once()
+                for k, v in self.stats.items():
+                    if k == "partitions_max":
+                        self.shared_stats[k] = max(self.shared_stats.get(k, 0), v)
+                    else:
+                        self.shared_stats[k] += v
+                return r
+            except OverflowError:
+                self.shared_stats["partition_fallbacks"] += 1
+                self.seen_reports.clear()
+                self.reset_reports()
+        raise AnalysisBroken("aliasflow: partition budget exceeded in %s" % self.fn["name"])
+
+    def run_once(self):
         fn = self.fn
         # variables that ever receive pointer arithmetic are not base pointers
         self.offset_vars = set()
@@ -767,7 +865,9 @@ class Analysis:
         iters = 0
         while work:
             iters += 1
-            if iters > 6000:
+            if iters > (2500 if self.fine else 12000):
+                if self.fine:
+                    raise OverflowError()
                 raise AnalysisBroken("aliasflow: fixpoint budget exceeded in %s" % fn["name"])
             bid = work.pop()
             b = self.blocks[bid]
@@ -793,13 +893,15 @@ class Analysis:
                     key = (ne2, self.objkey(st))
                     cur = IN[s].get(key)
                     if cur is None:
-                        if len(IN[s]) > 256:
+                        if len(IN[s]) > (64 if self.fine else 256):
+                            if self.fine:
+                                raise OverflowError()
                             raise AnalysisBroken("aliasflow: more than 256 alias partitions in %s" % fn["name"])
                         IN[s][key] = st.copy()
                         work.append(s)
                     elif cur.join(st, s):
                         work.append(s)
-        self.stats["partitions_max"] = max(self.stats.get("partitions_max", 0), max((len(v) for v in IN.values()), default=0))
+        self.stats["partitions_max"] = max((len(v) for v in IN.values()), default=0)
 
 
 def initial_state(an):
@@ -838,6 +940,39 @@ def static_noalias_pairs(fn, unit_fns, prop, stats):
     return pairs
 
 
+def overlap_contracts():
+    """{callee: [(i, j, kind, text)]} from the callees' own ASSERT (! MPN_OVERLAP_P ...) / MPN_SAME_OR_SEPARATE_P entry assertions,
+    extracted from the -DWANT_ASSERT=1 export of every built unit plus every mpn/generic/*.c (the C twins of assembly kernels)"""
+    import compdb, r_assert
+    cfg = sa.cfg_assert()
+    cfg.name = "assert-generic-all"
+    cfg.extra_files = compdb.generic_all_extra()
+    ex = sa.export(cfg)
+    out = collections.defaultdict(set)
+    for path, fn in ex.functions():
+        pidx = {p["id"]: i for i, p in enumerate(fn["params"]) if "*" in p.get("ct", "")}
+        if len(pidx) < 2:
+            continue
+        for b, t in r_assert.assert_sites(fn):
+            txt = t.get("txt", "")
+            if not txt.lstrip().startswith("ASSERT"):
+                continue                     # an assertion inside another macro's expansion is about that macro's locals
+            if "MPN_SAME_OR_SEPARATE" in txt:
+                kind = "same-or-separate"
+            elif "MPN_SAME_OR_INCR" in txt or "MPN_SAME_OR_DECR" in txt:
+                kind = "ordered"
+            elif "MPN_OVERLAP_P" in txt and "!" in txt.split("MPN_OVERLAP_P")[0]:
+                kind = "no-overlap"
+            else:
+                continue
+            ids = []
+            sa.walk(t["cond"], lambda n: ids.append(n["id"]) if n.get("k") == "var" and n["id"] in pidx and n["id"] not in ids else None)
+            if len(ids) == 2:
+                i, j = sorted(pidx[x] for x in ids)
+                out[fn["name"]].add((i, j, kind, t.get("txt", "")[:70]))
+    return {k: sorted(v) for k, v in out.items()}
+
+
 def run_rules(prop, only_dirs=("mpz", "mpq", "mpf"), rules=("R-STALE", "R-CLOBBER"), extra_files=()):
     res = dict(findings=[], stats=collections.Counter(), samples=[], notes=[])
     cfg = sa.Config("built-alias", extra_files=list(extra_files))
@@ -852,6 +987,10 @@ def run_rules(prop, only_dirs=("mpz", "mpq", "mpf"), rules=("R-STALE", "R-CLOBBE
     exc = set()
     for cols in spec_tsv("alias_exceptions.tsv", 4):
         exc.add((cols[0], cols[1], cols[2]))
+    contracts = overlap_contracts() if "R-OVERLAP" in rules else {}
+    res["stats"]["overlap_contracts"] = sum(len(v) for v in contracts.values())
+    if "R-OVERLAP" in rules and res["stats"]["overlap_contracts"] < 60:
+        raise AnalysisBroken("R-OVERLAP: only %d overlap assertions extracted from the callees (floor 60)" % res["stats"]["overlap_contracts"])
     for path, unit in ex.units():
         if not (any(("/%s/" % d) in path for d in only_dirs) or path in extra_files):
             continue
@@ -862,7 +1001,9 @@ def run_rules(prop, only_dirs=("mpz", "mpq", "mpf"), rules=("R-STALE", "R-CLOBBE
             a = Analysis(fn, prop, found.append, res["stats"], must_differ={pair for (f, pair) in md if f == fn["name"]})
             if not any(not v[2] for v in a.pinfo.values()):
                 continue                    # no output operand: nothing can be clobbered or reallocated
+            a.reset_reports = lambda found=found: found.clear()
             a.exceptions = exc
+            a.overlap = contracts
             a.static_noalias = static_noalias_pairs(fn, unit["functions"], prop, res["stats"])
             res["stats"]["functions"] += 1
             a.run()
